@@ -1583,6 +1583,15 @@ class Interp:
             v = fr.locals.get(n)
             if isinstance(t, tuple) and v is not None and hasattr(v, "init_sorts") and not v.ready:
                 v.init_sorts(self, *t)
+            elif isinstance(t, tuple) and isinstance(v, PyDict) and not v.items:
+                # an empty dict literal that the loop fills with symbolic keys: re-type it as a symbolic map
+                for k2, x in fr.locals.items():
+                    if x is v and k2 != n:
+                        raise Unsupported("empty dict %r is aliased by %r at loop entry" % (n, k2))
+                from .lib.maps import SymMap
+                m_ = SymMap()
+                m_.init_sorts(self, *t)
+                fr.locals[n] = m_
             elif isinstance(v, PyList) and not v.items and hasattr(t, "empty"):
                 # an empty list literal that the loop fills: re-type it as a symbolic-length list
                 for k2, x in fr.locals.items():
